@@ -217,7 +217,11 @@ theorem C19_rel_to_cfg_full_false :
 /-- **C19_rel_to_cfg (partial)**: the path values resolved by the stateful loader
 (chdir on entry, restore on exit) are a prefix of — and, when the load succeeds,
 exactly — the static assignment "each path value, and each nested config file,
-is joined to the directory of its innermost enclosing config file"; the load
+is joined to the directory of its innermost enclosing config file".  For a
+config handed over as a `Path` object (`subObj ref rem …`) that directory is
+`dirname` of the object's `absolute`; neither the PROCESS working directory
+`s.cwd` nor the directory `rem` the object remembers enters (see
+`C19_obj_dir_not_remembered`).  The load
 succeeds iff no item fails, provided every list file is named by a spelling that
 survives the second resolution (`stableItems`: absolute, or no directory part) -/
 theorem C19_rel_to_cfg_partial (items : List Item) (s : St) :
@@ -238,6 +242,32 @@ theorem C19_rel_to_cfg_load (l : Load) (s : St) :
   have h := runItem_spec (.sub l.ref l.items) s
   simp only [specItem, noFailItem, stableItem] at h
   exact ⟨h.2.1, h.2.2.1, h.2.2.2⟩
+
+/-- **process cwd vs remembered cwd**: a config given as a `Path` object created from `ref` while
+`rem` was the working directory is entered whatever the process working directory is now
+(`s.cwd`, `s'.cwd`) and whether or not the file sits directly in the remembered directory:
+its items are run from `normAbs (objDir …)`, and the run differs between two process states
+only in the state that is restored afterwards -/
+theorem C19_obj_dir_not_remembered (ref rem : P) (isDir : Bool) (items : List Item) (s s' : St) :
+    (runItem (.subObj ref rem isDir items) s).trace =
+      resolve ref rem :: (runItems items ⟨normAbs (objDir ref rem isDir), some (objDir ref rem isDir)⟩).trace ∧
+    (runItem (.subObj ref rem isDir items) s).trace = (runItem (.subObj ref rem isDir items) s').trace ∧
+    (runItem (.subObj ref rem isDir items) s).ok = (runItem (.subObj ref rem isDir items) s').ok ∧
+    (runItem (.subObj ref rem isDir items) s).st = s := by
+  refine ⟨by simp [runItem, enter], by simp [runItem, enter], by simp [runItem, enter], (runItem_spec _ s).1⟩
+
+/-- the case a "we are already there" shortcut keyed on the remembered directory gets wrong:
+`Path("main.yaml", cwd="/A")` parsed while the process is in `/run/sub`; the file sits directly
+in the remembered directory, the values inside still belong to `/A` (and `../B`, `../C` below it) -/
+example : (runItems [.subObj "main.yaml".toList "/A".toList false
+      [.path "a.txt".toList, .sub "../B/model.yaml".toList [.path "w.bin".toList, .sub "../C/enc.yaml".toList [.path "vocab.txt".toList]]]]
+    ⟨"/run/sub".toList, none⟩).trace.map (fun r => (String.ofList r.abs, String.ofList r.base)) =
+    [("/A/main.yaml", "/A"), ("/A/a.txt", "/A"), ("/A/../B/model.yaml", "/A"), ("/B/w.bin", "/B"),
+     ("/B/../C/enc.yaml", "/B"), ("/C/vocab.txt", "/C")] := by decide
+
+/-- `relative_path_context()` of a directory object (`mode` with `d`) enters the directory itself -/
+example : (runItems [.subObj "A".toList "/".toList true [.path "a.txt".toList]] ⟨"/run".toList, none⟩).trace.map (fun r => String.ofList r.abs) =
+    ["/A", "/A/a.txt"] := by decide
 
 /-- the hypothesis is satisfiable by non-trivial programs: absolute and bare spellings are stable -/
 example : stableItems "/fix/c".toList
